@@ -412,6 +412,9 @@ fn both_pars(spin: u8, preempt: Option<u8>) -> Vec<Env> {
 
 pub fn suite(check: &str, thorough: bool) -> Suite {
     let mut s = suite_inner(check, thorough);
+    if thorough {
+        s.cfg.wall_cap_ms = 900_000;
+    }
     // the heavy value / memory checks skip flavour assignments that cannot
     // change the code path of any operation (only the Drop impl run at the end
     // of the thread differs, which C06/C09/C10/C11/C12 cover with every
@@ -2535,7 +2538,7 @@ fn c17(thorough: bool) -> Suite {
                 &[Class::P],
                 &sync_only(4),
                 &[(S, Conv::Clone)],
-                &[env(par, 1, None, Some(3))],
+                &[env(par, 1, None, Some(2))],
                 false,
             ));
         }
